@@ -222,7 +222,7 @@ pub fn run(ctx: &Ctx) -> EvidenceMeta {
   let subs = all_subs();
   let mut jobs: Vec<Job> = vec![];
   for s in &subs {
-    let n = (ctx.n(2400, 24_000) / s.proto.cost().min(20)).max(120);
+    let n = (ctx.n(8000, 80_000) / s.proto.cost().min(20)).max(300);
     jobs.push(Box::new(move || ctx.prop(s, case(s.proto, s.layer), n)));
   }
   run_jobs(jobs);
